@@ -122,10 +122,15 @@ def run(ck):
 
     def evaluate(text):
         it.live = X.TRUE
+        n0 = len(it.events)
         try:
             v = it.call(eval_fx, [text, stats], {}, None)
         except AbsRaise as e:
             return ('raise', e.exc.tname)
+        # a raise under a condition on the statistics (e.g. `if not value: raise`): the expression has no value for those statistics
+        cond = [e for e in it.events[n0:] if e['kind'] == 'raise' and e['guard'] not in (X.TRUE, X.FALSE)]
+        if cond:
+            return ('raise', f"{cond[0]['exc']} when {X.show(cond[0]['guard'])}")
         if isinstance(v, Sc):
             return ('ok', v.d)
         if isinstance(v, (int, Fr, float)):
@@ -169,6 +174,7 @@ def run(ck):
 
     validator_rules(ck)
     wiring_rules(ck)
+    subset_rules(ck)
     ck.floor('C20.arith', 150)
     ck.floor('C20.validate', 100)
 
@@ -226,6 +232,29 @@ def validator_rules(ck):
             got_ok = False
         ck.ob('C20.validate', f'QcVariableConfig(suspect_min={spec!r})', got_ok == want_ok, key='QcVariableConfig:constructor-validation',
               what=f'QcVariableConfig with suspect_min={spec!r} is {"accepted" if got_ok else "rejected"}')
+    # every limit expression of every test section is validated, not only the four span keys
+    def cfg2(test, key, spec):
+        tests = {
+            'gross_range_test': {'suspect_min': 'min', 'suspect_max': 'max', 'fail_min': 'min - 1', 'fail_max': 'max + 1'},
+            'spike_test': {'suspect_threshold': 'std', 'fail_threshold': '2 * std'},
+            'flat_line_test': {'suspect_threshold': '3000', 'fail_threshold': '6000', 'tolerance': 'std / 10'},
+            'rate_of_change_test': {'threshold': '( max - min ) / 100'},
+            'location_test': {'bbox': [0, 0, 1, 1]},
+        }
+        tests[test] = dict(tests[test], **{key: spec})
+        return {'variable': 'temp', 'bbox': [0, 0, 1, 1], 'start_time': '2020-01-01', 'end_time': '2020-02-01', 'tests': tests}
+    places = [('gross_range_test', 'suspect_max'), ('gross_range_test', 'fail_min'), ('gross_range_test', 'fail_max'), ('spike_test', 'suspect_threshold'),
+              ('spike_test', 'fail_threshold'), ('flat_line_test', 'suspect_threshold'), ('flat_line_test', 'tolerance'), ('rate_of_change_test', 'threshold')]
+    for (test, key), (spec, want_ok) in itertools.product(places, (('mean + 2 * std', True), ('3 * kurtosis', False), ('std ^ 2', False), ('exp ( 9 )', False), ('2*std', False))):
+        try:
+            it.instantiate(QVC, [cfg2(test, key, spec)], {}, None)
+            got_ok, exc = True, None
+        except AbsRaise as e:
+            got_ok, exc = False, e.exc.tname
+        ck.count(1, distinct=('constructor', test, key, spec))
+        ck.ob('C20.validate', f'QcVariableConfig({test}.{key}={spec!r})', got_ok == want_ok and (got_ok or exc == 'ValueError'),
+              key=f'QcVariableConfig:constructor-validation:{test}.{key}',
+              what=f'QcVariableConfig with {test}.{key}={spec!r} is {"accepted" if got_ok else "rejected with " + str(exc)}, the property says {"accept" if want_ok else "reject with ValueError"}')
 
 
 def wiring_rules(ck):
@@ -290,6 +319,120 @@ def wiring_rules(ck):
                       what=f'create_config: {test}.{key} = {norm(g)}, expected {norm(w)} (expressions evaluated on min=1 max=6 mean=3 std=std(1,2,3,6))')
     finally:
         it.hooks.pop('QcConfigCreator._get_subset', None)
+
+
+class GridDS:
+    """a gridded climatology: 1-D lat / lon coordinates (in the dataset's own order) - what _get_subset reads to build its cell selectors"""
+    abs_kind = 'xr.Dataset'
+
+    def __init__(self, lats, lons):
+        self.lats, self.lons = lats, lons
+
+    def coord(self, name, kind='nd'):
+        vals = self.lats if name == 'lat' else self.lons
+        return Vec.fresh([El(X.num(v), False) for v in vals], kind=kind, dtype='f8')
+
+    def abs_getitem(self, interp, key, node):
+        if key in ('lat', 'lon'):
+            return self.coord(key)
+        from ..repo import AnalysisError
+        raise AnalysisError(f'climatology dataset: variable {key!r} read outside the modelled subset path', node)
+
+    def abs_getattr(self, interp, name, node):
+        if name in ('lat', 'lon'):
+            return self.coord(name)
+        if name in ('indexes', 'coords', 'variables'):
+            return {'lat': self.coord('lat', 'index' if name == 'indexes' else 'nd'), 'lon': self.coord('lon', 'index' if name == 'indexes' else 'nd')}
+        from ..repo import AnalysisError
+        raise AnalysisError(f'climatology dataset: attribute {name!r} outside the modelled subset path', node)
+
+
+def positions(sel, n, node=None):
+    """a cell selector along one axis (boolean mask, integer positions, slice) -> list of positions"""
+    from ..repo import AnalysisError
+    if isinstance(sel, slice):
+        return list(range(*sel.indices(n)))
+    if isinstance(sel, Vec):
+        if sel.dtype == 'b1':
+            if len(sel) != n:
+                raise AbsRaise(__import__('sa.interp', fromlist=['ExcVal']).ExcVal('IndexError', ('boolean index did not match',)), node)
+            out = []
+            for i, e in enumerate(sel.els()):
+                if e.d == X.TRUE:
+                    out.append(i)
+                elif e.d != X.FALSE:
+                    raise AnalysisError('cell selector with an undecided element')
+            return out
+        return [int(e.d[1]) % n for e in sel.els()]
+    if isinstance(sel, (list, tuple)):
+        return [int(i) % n for i in sel]
+    raise AnalysisError(f'cell selector of type {type(sel).__name__} not modelled')
+
+
+def subset_rules(ck):
+    """create_config on a climatology that is constant in time: the statistics are those of the grid cells inside the requested box
+    (edges included), whatever the order in which the file stores its coordinates.  The cubic-spline interpolation in time is replaced by
+    its value on constant data (the constant); the cell selection - _get_subset's own masks / indexers - is interpreted."""
+    it = ck.runner.interp
+    cc = it.module('ioos_qc.config_creator.config_creator')
+    QCC = cc.globals['QcConfigCreator']
+    LATS, LONS = [10, 20, 30, 40], [100, 110, 120]
+    value = lambda la, lo: Fr(1 + LATS.index(la) * 3 + LONS.index(lo))
+    orders = [('ascending', LATS, LONS), ('lat descending', LATS[::-1], LONS), ('lon descending', LATS, LONS[::-1]), ('lat unsorted', [30, 10, 40, 20], LONS)]
+    boxes = [[105, 15, 120, 30], [100, 10, 120, 40], [110, 20, 110, 20], [101, 11, 119, 39], [100, 30, 110, 40]]
+    for (oname, lats, lons), bbox in itertools.product(orders, boxes):
+        ds = GridDS(lats, lons)
+        captured = []
+
+        def subset_hook(interp, fv, args, kwargs, node, lats=lats, lons=lons):
+            names = ['self', 'var', 'time_slice', 'depth', 'lat_mask', 'lon_mask']
+            a = dict(zip(names, args))
+            a.update(kwargs)
+            li, lj = positions(a['lat_mask'], len(lats), node), positions(a['lon_mask'], len(lons), node)
+            captured.append((li, lj))
+            cells = [value(lats[i], lons[j]) for i in li for j in lj]
+            if not cells:
+                return 0          # what the function returns when nothing finite is inside the box
+            return Vec.fresh([El(X.num(v), False) for v in cells], kind='nd', dtype='f8')
+        inst = Instance(QCC)
+        inst.attrs['config'] = {}
+        inst.attrs['datasets'] = {}
+        saved = dict(it.hooks)
+        it.hooks['QcConfigCreator.var2dataset'] = lambda interp, fv, args, kwargs, node, ds=ds: ('clim', ds)
+        it.hooks['QcConfigCreator.__get_daily_interp_subset'] = subset_hook
+        label = f'create_config(bbox={bbox}) on a constant climatology, coordinates {oname}'
+        vc = {'variable': 'temp', 'bbox': list(bbox), 'start_time': '2020-01-01', 'end_time': '2020-02-01', 'tests': {
+            'gross_range_test': {'suspect_min': 'min', 'suspect_max': 'max', 'fail_min': 'mean', 'fail_max': 'std'}}}
+        try:
+            res = it.call(it.getattr(inst, 'create_config', None), [vc], {}, None)
+        except AbsRaise as e:
+            ck.violate('C20.subset', f'create_config:subset:raises-{e.exc.tname}', f'{label}: raises {e.exc.tname}{e.exc.args}')
+            continue
+        finally:
+            it.hooks.clear()
+            it.hooks.update(saved)
+        ck.count(1, distinct=('subset', oname, tuple(bbox)))
+        inside = [value(la, lo) for la in LATS for lo in LONS if bbox[1] <= la <= bbox[3] and bbox[0] <= lo <= bbox[2]]
+        mean = sum(inside) / len(inside)
+        want = [min(inside), max(inside), mean, sum((v - mean) ** 2 for v in inside) / len(inside)]
+        try:
+            sect = res['temp']['qartod']['gross_range_test']
+            got = [to_fr(x) for x in sect['suspect_span'] + sect['fail_span']]
+        except (KeyError, TypeError, ValueError) as e:
+            got = f'unreadable result ({e})'
+        ck.ob('C20.subset', label, got == want, key=f'create_config:subset:{oname}',
+              what=f'{label}: [min, max, mean, variance] of the selected cells = {show_list(got)}, of the cells inside the box = {show_list(want)} '
+                   f'(selected positions {captured[-1:] if captured else "none"})')
+    ck.floor('C20.subset', 15)
+
+
+def to_fr(v):
+    d = v.d if isinstance(v, Sc) else X.num(v)
+    return X.eval_num(d, {'__identity__': True})
+
+
+def show_list(v):
+    return [str(x) for x in v] if isinstance(v, list) else v
 
 
 def norm(v):
